@@ -14,7 +14,7 @@ pub fn meta() -> Meta {
     Meta {
         id: "C03",
         level: "exploration",
-        rule: "planted-SNP sample sets through the real build_and_merge + MergeSkaArray::new + apply_filters(min_freq 1, no-const) + write_fasta (what `ska align --min-freq 1` does): ancestors = members of a deterministic family of sequences of length 6k whose split k-mers are unique on both strands; k in {5,7,9,15,31,33,63} (thorough: all 30); site sets = all subsets of size 1..2 (size 3 at k=5,7; thorough: everywhere) of a position grid with spacing exactly h+1 that starts exactly h from the contig start and ends exactly h from its end (h=(k-1)/2); allele assignments = every assignment of {ancestral, alt1, alt2} to n=2,3,4 samples with at least two alleles, and the single-carrier / half / all-but-one biallelic patterns for n=10; sample orientations (all forward, all reverse-complemented, alternating, one flipped); contig layout one contig, cut in two, or with an extra contig of length exactly k that carries a site at its centre. Cases whose premise fails (a site closer than h to a contig end after the cut, accidental k-mer collisions detected by the model) are counted as trivial and not judged. Oracle: exactly one column per site, the multiset of columns modulo whole-column complement equals the planted one, equal lengths, names in input order. Non-trivial = premise holds.".into(),
+        rule: "planted-SNP sample sets through the real build_and_merge + MergeSkaArray::new + apply_filters(min_freq 1, no-const) + write_fasta (what `ska align --min-freq 1` does; plus sites whose two arms are homopolymers of each letter; with both strands in use, and additionally in single-strand mode whenever no contig of the case is reverse-complemented): ancestors = members of a deterministic family of sequences of length 6k whose split k-mers are unique on both strands; k in {5,7,9,15,31,33,63} (thorough: all 30); site sets = all subsets of size 1..2 (size 3 at k=5,7; thorough: everywhere) of a position grid with spacing exactly h+1 that starts exactly h from the contig start and ends exactly h from its end (h=(k-1)/2); allele assignments = every assignment of {ancestral, alt1, alt2} to n=2,3,4 samples with at least two alleles, and the single-carrier / half / all-but-one biallelic patterns for n=10; sample orientations (all forward, all reverse-complemented, alternating, one flipped); contig layout one contig, cut in two, or with an extra contig of length exactly k that carries a site at its centre. Cases whose premise fails (a site closer than h to a contig end after the cut, accidental k-mer collisions detected by the model) are counted as trivial and not judged. Oracle: exactly one column per site, the multiset of columns modulo whole-column complement equals the planted one, equal lengths, names in input order. Non-trivial = premise holds.".into(),
         assumptions: vec!["premise re-checked by the model on the derived samples (DESIGN §4 rule 1)".into()],
         exhaustive_when_uncapped: true,
     }
@@ -117,31 +117,39 @@ pub fn check(c: &Case) -> Result<bool, String> {
     let n = c.n();
     let names: Vec<String> = (0..n).map(|i| format!("smp{i}")).collect();
     let samples = c.samples();
-    // premise on the derived samples: the model's own alignment must be the planted one
-    let t = Table::from_samples(c.k, true, &names, &samples);
-    let f = FilterSpec { thr: n, filt: Filt::NoConst, ambig_missing: false, mask: false, nogap: false };
-    let mut model_cols: Vec<Vec<u8>> = t.filter(&f).columns().iter().map(|x| canon_col(x)).collect();
-    model_cols.sort();
     let planted = c.planted();
-    if model_cols != planted {
-        return Ok(false);
-    }
+    let f = FilterSpec { thr: n, filt: Filt::NoConst, ambig_missing: false, mask: false, nogap: false };
     let paths: Vec<String> = (0..n).map(|i| scratch::write(&format!("c03_{i}.fa"), &scratch::fasta(&samples[i]))).collect();
-    let res = if c.k <= 31 {
-        real::build_array::<u64>(&names, &paths, c.k, true).and_then(|mut a| real::align_array(&mut a, 1.0, &f))
-    } else {
-        real::build_array::<u128>(&names, &paths, c.k, true).and_then(|mut a| real::align_array(&mut a, 1.0, &f))
-    };
-    let (got_names, seqs) = res.map_err(|e| format!("build/align failed: {}", e.chars().take(120).collect::<String>()))?;
-    if got_names != names {
-        return Err(format!("sample names {got_names:?}, expected input order {names:?}"));
-    }
-    let cols = real::columns_of(&seqs)?;
-    let mut got: Vec<Vec<u8>> = cols.iter().map(|x| canon_col(x)).collect();
-    got.sort();
-    if got != planted {
-        let show = |v: &Vec<Vec<u8>>| v.iter().map(|x| String::from_utf8_lossy(x).to_string()).collect::<Vec<_>>().join(" ");
-        return Err(format!("alignment columns [{}] but the planted SNPs are [{}]", show(&got), show(&planted)));
+    // both strands in use; and, when every contig is in the ancestor's orientation, also the single-strand mode
+    let modes: &[bool] = if c.flip.iter().all(|x| !*x) { &[true, false] } else { &[true] };
+    for rc in modes {
+        // premise on the derived samples: the model's own alignment must be the planted one
+        let t = Table::from_samples(c.k, *rc, &names, &samples);
+        let mut model_cols: Vec<Vec<u8>> = t.filter(&f).columns().iter().map(|x| canon_col(x)).collect();
+        model_cols.sort();
+        if model_cols != planted {
+            if *rc {
+                return Ok(false);
+            }
+            continue;
+        }
+        let res = if c.k <= 31 {
+            real::build_array::<u64>(&names, &paths, c.k, *rc).and_then(|mut a| real::align_array(&mut a, 1.0, &f))
+        } else {
+            real::build_array::<u128>(&names, &paths, c.k, *rc).and_then(|mut a| real::align_array(&mut a, 1.0, &f))
+        };
+        let mode = if *rc { "" } else { "single-strand build: " };
+        let (got_names, seqs) = res.map_err(|e| format!("{mode}build/align failed: {}", e.chars().take(120).collect::<String>()))?;
+        if got_names != names {
+            return Err(format!("{mode}sample names {got_names:?}, expected input order {names:?}"));
+        }
+        let cols = real::columns_of(&seqs)?;
+        let mut got: Vec<Vec<u8>> = cols.iter().map(|x| canon_col(x)).collect();
+        got.sort();
+        if got != planted {
+            let show = |v: &Vec<Vec<u8>>| v.iter().map(|x| String::from_utf8_lossy(x).to_string()).collect::<Vec<_>>().join(" ");
+            return Err(format!("{mode}alignment columns [{}] but the planted SNPs are [{}]", show(&got), show(&planted)));
+        }
     }
     Ok(true)
 }
@@ -273,6 +281,46 @@ pub fn run(ctx: &Ctx, rep: &mut Report) {
         rep.completed.push(format!("k={k}"));
     }
     rep.sample(json!({"k": 7, "sites": [3, 7, 38], "alleles": [[0, 1], [1, 0], [0, 2]], "flip": [false, true], "cut": 0, "oracle": "exactly the planted columns, modulo complement"}));
+    // sites whose two arms are homopolymers (A^h x A^h, also C, G, T): arms that encode as all-zero / all-one bit
+    // patterns and equal their own complement pattern; both strand modes through check()
+    if !rep.capped {
+        for k in [5usize, 7, 9, 15, 31, 33] {
+            let h = (k - 1) / 2;
+            for letter in *b"ACGT" {
+                for mid in *b"ACGT" {
+                    idx += 1;
+                    if !ctx.mine(idx) {
+                        continue;
+                    }
+                    let pre = repeat_free(3 * k, k, 0, ctx.seed + 310);
+                    let post = repeat_free(3 * k, k, 0, ctx.seed + 311);
+                    let mut anc = pre.clone();
+                    // a separator that differs from the arm letter keeps the run exactly h long
+                    let sep = if letter == b'A' || letter == b'T' { b'C' } else { b'A' };
+                    anc.push(sep);
+                    anc.extend(std::iter::repeat(letter).take(h));
+                    let site = anc.len();
+                    anc.push(mid);
+                    anc.extend(std::iter::repeat(letter).take(h));
+                    anc.push(sep);
+                    anc.extend_from_slice(&post);
+                    for alleles in [vec![0u8, 1, 2], vec![0, 1, 1], vec![0, 0, 2]] {
+                        let c = Case { k, ancestor: anc.clone(), sites: vec![site], alleles: vec![alleles], flip: vec![false, false, false], cut: 0 };
+                        rep.evaluations += 1;
+                        match check(&c) {
+                            Ok(true) => {
+                                rep.nontrivial += 1;
+                                rep.corner("site_with_homopolymer_arms");
+                            }
+                            Ok(false) => rep.corner("premise_not_met_(negative_control_or_collision)"),
+                            Err(e) => rep.violate(format!("{}", c.json()), format!("k={k} site with arms {}^{h}: {e}", letter as char), c.json()),
+                        }
+                    }
+                }
+            }
+        }
+        rep.completed.push("homopolymer arms".into());
+    }
     // CLI sub-family: names from file names, both routes
     if !rep.capped {
         for k in [17usize, 31, 33] {
